@@ -365,7 +365,8 @@ reg(Check("C14", "model_checking",
           note="trusted: instrumenter + scheduler shim (self-tested)", technique="stateless model checking of the implementation (controlled scheduler, deviation bounding)",
           engine="E1 detsched", claimed=True,
           parts=[Part("races", SRV, "^TestVerifC14Races$", instr=True, shards=(16, 16), deadline=(300, 3000)),
-                 Part("acl", SRV, "^TestVerifC14Acl$", instr=True, gomaxprocs=16, deadline=(300, 2400))]))
+                 Part("acl", SRV, "^TestVerifC14Acl$", instr=True, gomaxprocs=16, deadline=(300, 2400)),
+                 Part("acl-fault", SRV, "^TestVerifC14AclFault$", instr=True, gomaxprocs=16, deadline=(300, 2400))]))
 
 reg(Check("C10", "model_checking",
           "pres: BFS to depth 4 (quick) / 6 (thorough) over 20 operations (two users a, b with a p2p topic and a shared group, a stranger c; a has "
